@@ -251,7 +251,7 @@ class SymExt:
     # ------------------------------------------------------------------ decoders
     def new_size(self, view, kind, ok, why):
         name = self.fresh("S")
-        self.decodes.append({"view": view.copy() if view is not None else None, "kind": kind, "ok": ok, "why": why, "sym": name})
+        self.decodes.append({"view": view.copy() if view is not None else None, "kind": kind, "ok": ok, "why": why, "sym": name, "fn": getattr(self, "current_fn", None)})
         return ("lin", ((name, 1),))
 
     def decode_unpack(self, fmt, arg):
